@@ -219,6 +219,9 @@ func (s *state) handle(c *core.Ctx, l *c03.Line, src string, st *c03.Stats) erro
 	case len(l.Dev) > 0 && expClass(l.Dev[0]) == out.C:
 		atomic.AddInt64(&s.n.dev, 1)
 		c.Hit("deviation")
+	case len(l.Dev) > 0 && expClass(l.Dev[0]) == "skip":
+		// under the open deviations the text is tokenised differently: not decidable at the token level
+		atomic.AddInt64(&s.n.skip, 1)
 	default:
 		msg := ""
 		if out.C == "reject" {
